@@ -45,7 +45,33 @@ PUS_EXCL = {4: 0xFF, 5: 0xFF}
 CFDP_EXCL = {0: 0x03, 1: 0xFF, 2: 0xFF, 3: 0x77}
 
 
-def h_tc(ctx, n, o):
+def h_big_clean(ctx, which, total):
+    """uncorrupted packets of larger sizes (concrete filler data, symbolic header fields) pass both the decoder and the
+    standalone check - the standalone check must give the decoder's verdict for every length"""
+    if which == "tc":
+        n = total - 13
+        data = bytes((11 * i + 5) & 0xFF for i in range(n))
+        raw = PusTc(ctx.int("svc", 0, 255), ctx.int("sub", 0, 255), ctx.int("apid", 0, 2047), data, ctx.int("sc", 0, 16383)).pack()
+        dec = PusTc.unpack
+    else:
+        n = total - 15 - 2
+        data = bytes((7 * i + 1) & 0xFF for i in range(n))
+        raw = PusTm(ctx.int("svc", 0, 255), ctx.int("sub", 0, 255), ctx.octets("stamp", 2), data, ctx.int("apid", 0, 2047),
+                    ctx.int("sc", 0, 16383)).pack()
+        dec = lambda d: PusTm.unpack(d, 2)  # noqa: E731
+    ctx.holds("packed size", len(raw) == total)
+    ctx.holds("uncorrupted packet passes the CRC check", check_pus_crc(raw) == True)  # noqa: E712
+    e, u = call(dec, raw)
+    ctx.holds("uncorrupted packet is accepted", e is None, exc_name(e))
+    w = ctx.int("w", 1, 255)
+    pos = total // 2
+    bad = ctx.bytes_of(items_of(raw)[:pos] + [raw[pos] ^ w] + items_of(raw)[pos + 1:])
+    e, u = call(dec, bad)
+    ctx.holds("corrupted packet is never returned as an object", e is not None)
+    ctx.holds("check_pus_crc reports the corruption", check_pus_crc(bad) == False)  # noqa: E712
+
+
+def h_tc(ctx, n, o, tail=0):
     svc, sub, apid, sc, src, ack = (ctx.int("svc", 0, 255), ctx.int("sub", 0, 255), ctx.int("apid", 0, 2047),
                                     ctx.int("sc", 0, 16383), ctx.int("src", 0, 65535), ctx.int("ack", 0, 15))
     raw = PusTc(svc, sub, apid, ctx.octets("data", n), sc, src, ack).pack()
@@ -55,13 +81,13 @@ def h_tc(ctx, n, o):
         ctx.holds("uncorrupted packet is accepted", e is None, exc_name(e))
         return
     bad = corrupt(ctx, items_of(raw), o, PUS_EXCL)
-    e, u = call(PusTc.unpack, bad)
+    e, u = call(PusTc.unpack, (bad + ctx.octets("following", tail)) if tail else bad)
     ctx.holds("corrupted packet is never returned as an object", e is not None)
     ctx.holds("corrupted packet raises a documented error", e is None or isinstance(e, DOC_PUS), exc_name(e))
     ctx.holds("check_pus_crc reports the corruption", check_pus_crc(bad) == False)  # noqa: E712
 
 
-def h_tm(ctx, t, n, o, wrapper=False):
+def h_tm(ctx, t, n, o, wrapper=False, tail=0):
     stamp = ctx.octets("stamp", t)
     tm = PusTm(ctx.int("svc", 0, 255), ctx.int("sub", 0, 255), stamp, ctx.octets("data", n), ctx.int("apid", 0, 2047),
                ctx.int("sc", 0, 16383), ctx.int("mc", 0, 65535), ctx.int("tref", 0, 15), ctx.int("dest", 0, 65535),
@@ -74,13 +100,13 @@ def h_tm(ctx, t, n, o, wrapper=False):
         ctx.holds("uncorrupted packet is accepted", e is None, exc_name(e))
         return
     bad = corrupt(ctx, items_of(raw), o, PUS_EXCL)
-    e, u = call(dec, bad)
+    e, u = call(dec, (bad + ctx.octets("following", tail)) if tail else bad)
     ctx.holds("corrupted packet is never returned as an object", e is not None)
     ctx.holds("corrupted packet raises a documented error", e is None or isinstance(e, DOC_PUS), exc_name(e))
     ctx.holds("check_pus_crc reports the corruption", check_pus_crc(bad) == False)  # noqa: E712
 
 
-def h_pdu(ctx, kind, cfg, var, o, factory=False):
+def h_pdu(ctx, kind, cfg, var, o, factory=False, tail=0):
     b = build(ctx, kind, cfg, var)
     raw = b.pdu.pack()
     if o is None:
@@ -89,7 +115,7 @@ def h_pdu(ctx, kind, cfg, var, o, factory=False):
         ctx.holds("trailer == CRC-16 of all preceding octets", ((raw[-2] << 8) | raw[-1]) == crc16(ctx, items_of(raw)[:-2]))
         return
     bad = corrupt(ctx, items_of(raw), o, CFDP_EXCL)
-    e, u = call(PduFactory.from_raw if factory else b.cls.unpack, bad)
+    e, u = call(PduFactory.from_raw if factory else b.cls.unpack, (bad + ctx.octets("following", tail)) if tail else bad)
     ctx.holds("corrupted PDU is never returned as an object", sym_not(e is None and u is not None),
               "returned %s" % type(u).__name__)
     ctx.holds("corrupted PDU raises a documented error", e is None or isinstance(e, DOC_CFDP), exc_name(e))
@@ -192,6 +218,20 @@ def cases(tier):
                     for o in offs:
                         cs.append(Case("%s-factory-o%03d" % (base, o), kind, h_pdu,
                                        dict(kind=kind, cfg=cfg, var=var, o=o, factory=True), bounds="via PduFactory.from_raw, window at %d" % o))
+    # corrupted packet followed by further octets (next packet / fill): still never accepted
+    for o in [o for o in range(8 * 13) if free_bit(o, 13, PUS_EXCL)]:
+        cs.append(Case("tc-n0-tail2-o%03d" % o, "tc", h_tc, dict(n=0, o=o, tail=2), bounds="TC, window at %d, followed by 2 arbitrary octets" % o))
+    for o in [o for o in range(8 * 15) if free_bit(o, 15, PUS_EXCL)]:
+        cs.append(Case("tm-t0-n0-tail3-o%03d" % o, "tm", h_tm, dict(t=0, n=0, o=o, tail=3), bounds="TM, window at %d, followed by 3 arbitrary octets" % o))
+    Lk = len(build(LenCtx(), "keepalive", (1, 1, 1, 0), {}).ref)
+    for o in [o for o in range(8 * Lk) if free_bit(o, Lk, CFDP_EXCL)]:
+        cs.append(Case("keepalive-tail2-o%03d" % o, "keepalive", h_pdu, dict(kind="keepalive", cfg=(1, 1, 1, 0), var={}, o=o, tail=2),
+                       bounds="Keep Alive PDU, window at %d, followed by 2 arbitrary octets" % o))
+    for which in ("tc", "tm"):
+        for total in tier_pick(tier, (255, 256, 257, 511, 512, 515, 518, 519, 1024, 1030), (255, 256, 257, 263, 264, 511, 512, 513, 514, 515, 516, 517, 518,
+                                                                                          519, 767, 768, 775, 1024, 1030, 4096, 4102, 65535 + 7)):
+            cs.append(Case("big-%s-%d" % (which, total), "big", h_big_clean, dict(which=which, total=total),
+                           bounds="%s of %d octets (concrete filler data, all header field values): clean accepted, one corrupted octet rejected" % (which, total)))
     cs.append(Case("setters-tc", "setters", h_setters_tc, {}, bounds="all old/new field values"))
     cs.append(Case("setters-tm", "setters", h_setters_tm, {}, bounds="all old/new field values"))
     cs.append(Case("twin", "tc", h_twin, {}, expect_violation=True, bounds="reachability twin"))
